@@ -44,6 +44,18 @@ class Unserialisable:
         raise TypeError("cannot pickle this")
 
 
+class EmptyErrors(Exception):
+    """an aggregate-style exception (a list of problems that happens to be empty / reports its length): its truth value is False"""
+
+    def __len__(self):
+        return 0
+
+
+class UnserialisableFalsy:
+    def __reduce__(self):
+        raise EmptyErrors("cannot pickle this either")
+
+
 def gen_cases(tier, seed):
     n = 220 if tier == "quick" else 2500
     out = []
@@ -55,7 +67,7 @@ def gen_cases(tier, seed):
                     "path": r.choice(["str", "pathlib"]), "present": r.random() < 0.7,
                     # the existing target may be reached through a symbolic link or have a second hard link (a data file shared by name)
                     "link": r.choice([None, None, None, "symlink", "hardlink"]),
-                    "value": r.choice(["small", "small", "chunks", "empty", "bad", "mixedkeys", "badopen"]),
+                    "value": r.choice(["small", "small", "chunks", "empty", "bad", "mixedkeys", "badopen", "badfalsy"]),
                     "leftover": r.random() < 0.3})
     for i in range(max(8, n // 14)):
         # two or three stores whose files are siblings (same stem) written at the same time with their file operations interleaved one at a
@@ -73,6 +85,13 @@ def make_value(store, vclass, r):
     if vclass == "badopen":
         if store in ("json", "text", "staged_write"):
             return ({"a": 1} if store == "json" else "text that is never written"), True
+        vclass = "bad"
+    if vclass == "badfalsy":
+        # the serialisation fails with an exception INSTANCE whose truth value is False
+        if store == "pickle":
+            return [list(range(100)), UnserialisableFalsy()], True
+        if store in ("staged_write", "staged_write_path"):
+            return "user-raises-falsy", True
         vclass = "bad"
     if vclass == "mixedkeys":
         if store == "json":
@@ -155,9 +174,9 @@ def writer(store, path):
     if store == "staged_write":
         def w(v):
             with st.staged_write(path, "w") as f:
-                if v == "user-raises":
+                if v in ("user-raises", "user-raises-falsy"):
                     f.write("partial")
-                    raise UserError("user code failed inside staged_write")
+                    raise (UserError if v == "user-raises" else EmptyErrors)("user code failed inside staged_write")
                 for i in range(0, len(v), 4096):
                     f.write(v[i:i + 4096])
         return w
@@ -165,10 +184,10 @@ def writer(store, path):
         def w(v):
             with st.staged_write_path(path) as sp:
                 with open(sp, "w") as f:
-                    if v == "user-raises":
+                    if v in ("user-raises", "user-raises-falsy"):
                         f.write("partial")
                         f.flush()
-                        raise UserError("user code failed inside staged_write_path")
+                        raise (UserError if v == "user-raises" else EmptyErrors)("user code failed inside staged_write_path")
                     f.write(v)
         return w
     raise AssertionError(store)
